@@ -109,7 +109,7 @@ def workload(tier, seed, shard):
         cases.append(dict(type='chain', n=n, order=o, cls=c, w=1 if k % 2 == 0 else 4, order_seed=seed * 1000 + k))
     for i in range(N_NET[tier]):
         rnd = rng(seed, 'C18net', i)
-        cases.append(dict(type='net', plan=c18net.gen_netlist(rnd, big=(i % 5 == 4))))
+        cases.append(dict(type='net', plan=c18net.gen_netlist(rnd, big=(i % 5 == 4), observer=(i % 12 == 5))))
     cases = shard_slice(cases, shard)
     for k, c in enumerate(cases):
         c['idx'] = k
@@ -243,6 +243,9 @@ def judge(run, case, res):
     if feats.get('creation_order_permuted'):
         run.count('netlists_with_permuted_creation_order')
     run.count('sch_route_segments_judged', st.get('route_segments_judged', 0))
+    if feats.get('observer'):
+        run.count('netlists_with_observer_child')
+        run.count('observer_' + feats['observer'])
     if case['type'] == 'chain':
         run.count('long_chains_drawn')
         run.count('long_chains_drawn_%d_%s' % (case['n'], case['order']))
